@@ -94,7 +94,7 @@ def step (st : St) : List String → St × String
     match decCounted decChain ws with
     | some (chains, []) =>
       let t := newTable chains
-      ({ st with tbl := t }, s!"ok {t.entries.length} {t.subs.length}")
+      ({ st with tbl := t }, s!"ok {(t.resolve.map (·.table.length)).sum}")
     | _ => (st, "bad-op")
   | ["set", id, s] =>
     match id.toNat?, s.toNat? with
